@@ -382,6 +382,13 @@ class Session:
         mode = rng.choice(modes)
         if getattr(self, "small_only", False):
             mode = rng.choice(["raw", "solid", "rle"])
+        fk = None
+        if getattr(self, "force_tile", None):        # deterministic sub-encoding coverage
+            ft = self.force_tile.pop(0)
+            fmode, fk = ft[0], (ft[1] if len(ft) > 1 else None)
+            if fmode.startswith("reuse") and not (trle_state is not None and trle_state.get("pal")):
+                fmode, fk = "packed", 4
+            mode = fmode
         cp = fmt.cpixel
         if mode == "reuse-packed" and not (2 <= len(trle_state["pal"]) <= 16):
             mode = "reuse-prle"
@@ -397,7 +404,7 @@ class Session:
             return b"\x01" + cp(c), c * n
         if mode in ("packed", "reuse-packed"):
             if mode == "packed":
-                k = rng.choice([2, 2, 3, 4, 5, 7, 16, 16])
+                k = fk or rng.choice([2, 2, 3, 4, 5, 7, 16, 16])
                 pal = palette(rng, fmt, k)
                 head = bytes([k]) + b"".join(cp(p) for p in pal)
                 if trle_state is not None:
@@ -419,7 +426,7 @@ class Session:
             return b"".join(out), b"".join(px)
         # palette RLE
         if mode == "prle":
-            k = rng.choice([2, 3, 16, 17, 64, 126, 127])
+            k = fk or rng.choice([2, 3, 16, 17, 64, 126, 127])
             pal = palette(rng, fmt, k)
             head = bytes([128 + k]) + b"".join(cp(p) for p in pal)
             if trle_state is not None:
@@ -496,8 +503,9 @@ class Session:
         """-> (control byte with reset bits, data block)"""
         rng = self.rng
         resets = 0
+        forced = getattr(self, "force_resets", None)
         for i in range(4):
-            if rng.random() < 0.12:
+            if (forced is None and rng.random() < 0.12) or (forced is not None and forced >> i & 1):
                 resets |= 1 << i
                 self.zs[i].reset()
                 self.tag("tight:reset")
@@ -521,14 +529,16 @@ class Session:
         if fmt.bpp != 8:
             modes += ["grad", "grad"]
         mode = force or rng.choice(modes)
-        sid = rng.randrange(4)
+        sid = rng.randrange(4) if getattr(self, "force_sid", None) is None else self.force_sid
         if mode == "fill":
             c = self.colour()
             resets = 0
+            forced = getattr(self, "force_resets", None)
             for i in range(4):
-                if rng.random() < 0.1:
+                if (forced is None and rng.random() < 0.1) or (forced is not None and forced >> i & 1):
                     resets |= 1 << i
                     self.zs[i].reset()
+                    self.tag("tight:fill-reset")
             self.tag("tight:fill")
             return bytes([0x80 | resets]) + tp(c), c * n
         if mode in ("copy", "copy-x"):
@@ -539,7 +549,7 @@ class Session:
             self.tag("tight:" + mode)
             return ctl + (b"\x00" if mode == "copy-x" else b"") + blk, px
         if mode in ("pal2", "paln"):
-            k = 2 if mode == "pal2" else rng.choice([3, 4, 16, 255, 256])
+            k = 2 if mode == "pal2" else (getattr(self, "force_k", None) or rng.choice([3, 4, 16, 255, 256]))
             pal = palette(rng, fmt, k)
             idx = [rng.randrange(k) for _ in range(n)]
             if k == 2:
